@@ -900,7 +900,8 @@ def rule_specials_and_start(ctx: Ctx, rule: str) -> None:
     it = repo.func('glob', 'Glob._iter')
     site = repo.loc('glob', it.node)
     _ev, paths = tabulate_method(repo, 'glob', 'Glob._iter', {}, [Opaque('curdir'), Opaque('dir_only'), Opaque('deep')], inline=False, max_paths=20000)
-    bad_f, bad_w, bad_y, bad_l = [], [], [], []
+    bad_f, bad_w, bad_y, bad_l, bad_t = [], [], [], [], []
+    n_fd = 0
     n_fake = n_real = 0
     for p in paths:
         focus(p)
@@ -931,8 +932,26 @@ def rule_specials_and_start(ctx: Ctx, rule: str) -> None:
         if reals:
             n_real += 1
             v = reals[0][1][1]
-            okv = isinstance(v, tuple) and len(v) == 4 and _tag(v[0]).endswith(').name') and _tag(v[0]).startswith('elem(os.scandir(') and \
-                (v[1] is isdir or _tag(v[1]) == ent[0] if ent else _tag(v[1]).endswith('.is_dir()')) and _tag(v[2]).startswith('glob:Glob._is_hidden(elem(os.scandir(')
+            # the name: the entry's own, except that scanning a descriptor reports str names whatever the pattern type is, so a bytes
+            # walker must encode them (os.fsencode) -- decided by a type test of one of the walker's str/bytes twins
+            nm = _tag(v[0]) if isinstance(v, tuple) and v else ''
+            raw = nm.startswith('elem(os.scandir(') and nm.endswith(').name')
+            enc = nm.startswith('os.fsencode(elem(os.scandir(') and nm.endswith(').name)')
+            by_fd = 'elem(os.scandir(os.open(' in nm
+            tt = [v2 for k2, v2 in p.decisions.items() if k2.startswith('isinstance(self.') and k2.endswith(', bytes)')]
+            if by_fd and any(k2.startswith('os.open(') and k2.endswith(' is not None') and v2 is False for k2, v2 in p.decisions.items()):
+                pass  # os.open() returns a descriptor, never None: an infeasible row
+            elif by_fd:
+                n_fd += 1
+                if len(tt) != 1:
+                    bad_t.append('names read from a descriptor are str: the walker does not ask whether it is a bytes walker')
+                elif tt[0] != enc or not (raw or enc):
+                    bad_t.append(f'bytes walker={tt[0]}: the name yielded is {nm[:70]}')
+            elif not raw:
+                bad_t.append(f'path scan: the name yielded is {nm[:70]}')
+            hid = _tag(v[2]) if isinstance(v, tuple) and len(v) > 2 else ''
+            okv = isinstance(v, tuple) and len(v) == 4 and (raw or enc) and \
+                (v[1] is isdir or _tag(v[1]) == ent[0] if ent else _tag(v[1]).endswith('.is_dir()')) and hid == f'glob:Glob._is_hidden({nm})'
             if not okv:
                 bad_y.append(f'yields {_tag(v)[:100]}')
             else:
@@ -956,6 +975,10 @@ def rule_specials_and_start(ctx: Ctx, rule: str) -> None:
            'as expected' if not bad_w else bad_w[0], witness="with a regular file f, glob('f/..') returns ['f/..'] although the path does not exist")
     ctx.ob(rule, 'glob:Glob._iter/entry-yield', not bad_y, site, 'not dir_only or is_dir: yield entry.name, is_dir, hidden, is_link', f'{n_real} rows agree' if not bad_y else sorted(set(bad_y))[0],
            witness="glob('*/') must return directories only")
+    ctx.ob(rule, 'glob:Glob._iter/names-have-the-pattern-type', not bad_t and n_fd >= 2, site,
+           'entry names are yielded as they come, except after a descriptor scan (str names) in a bytes walker: os.fsencode(name)',
+           f'{n_fd} descriptor rows agree' if not bad_t and n_fd >= 2 else (sorted(set(bad_t))[0] if bad_t else f'{n_fd} descriptor rows'),
+           witness="glob.glob(b'*', dir_fd=fd) must return what glob.glob(b'*', root_dir=b'.') returns, not raise TypeError (str and bytes mixed in os.path.join)")
     ctx.ob(rule, 'glob:Glob._iter/is_link', not bad_l, site, 'is_link = entry.is_symlink() for directories, False otherwise', 'as expected' if not bad_l else sorted(set(bad_l))[0],
            witness="glob('**', GLOBSTAR) must not descend a symlinked directory")
     sp = repo.func('glob', 'Glob._get_starting_paths')
